@@ -346,48 +346,85 @@ def _fold(prog, f: FuncInfo, e: ast.expr | None):
 
 def rseq_scalars(ctx: Context) -> None:
     """phi_d is the fixed point of x -> (1 + x)^(1/(d+1)), iterated from 2.0 until the value no longer changes (exact float equality).
-    Two spellings of the same iteration are read: `while prev != x: prev = x; x = F(x)` and `while True: y = F(x); if y == x: return y; x = y`."""
+    Two spellings of the same iteration are read: `while prev != x: prev = x; x = F(x)` and `while True: y = F(x); if y == x: return y; x = y`.
+    The function may contain the iteration more than once (a helper read in place on several paths) and may keep results in a value-keyed memo:
+    every loop is checked, and every return hands out the variable of a checked loop or the memo entry stored from one under the key `d`."""
     f = ctx.func(f"{RS}.compute_phi")
     n = normaliser(ctx.prog, f, inline_locals=False)
     d = f.bound_params[0]
     rets = returns_of(f)
     loops = [w for w in walk_scope(f.node) if isinstance(w, ast.While)]
     ctx.floor("R4", "fixed-point loop in compute_phi", len(loops), 1)
-    w = loops[0]
-    in_loop = {id(x) for x in ast.walk(w)}
-    inits = [s for s in walk_scope(f.node) if isinstance(s, (ast.Assign, ast.AnnAssign)) and id(s) not in in_loop and isinstance(s.value, ast.Constant) and s.value.value == 2.0
-             and isinstance(s.targets[0] if isinstance(s, ast.Assign) else s.target, ast.Name)]
-    ctx.check(len(inits) == 1, "R4.phi", "RSequenceSampler.compute_phi:start", "the fixed-point iteration starts from 2.0", "phi does not start from 2.0", f, inits[0] if inits else f.node)
-    if len(inits) != 1:
-        return
-    x = src(inits[0].targets[0] if isinstance(inits[0], ast.Assign) else inits[0].target)
-    want = n.rat(parse_expr(f"(1 + {x}) ** (1.0 / ({d} + 1))"))
-    upd = [s for s in ast.walk(w) if isinstance(s, ast.Assign) and isinstance(s.targets[0], ast.Name) and n.rat(s.value).equals(want)]
-    others = [s for s in ast.walk(w) if isinstance(s, (ast.Assign, ast.AugAssign)) and src(s.targets[0] if isinstance(s, ast.Assign) else s.target) == x and s not in upd
-              and not (isinstance(s, ast.Assign) and isinstance(s.value, ast.Name) and any(s.value.id == src(u.targets[0]) for u in upd))]
-    ctx.check(len(upd) == 1 and not others, "R4.phi", "RSequenceSampler.compute_phi:update", "phi <- (1 + phi)^(1/(d+1))",
-              f"phi update is `{src(upd[0].value) if upd else (src(others[0]) if others else '?')}`" if upd or others else "no update phi <- (1 + phi)^(1/(d+1)) in the loop", f, (upd or others or [w])[0])
-    if len(upd) != 1:
-        return
-    y = src(upd[0].targets[0])
-    ok = False
-    why = f"loop condition is `{src(w.test)}`"
-    if y == x:
-        # form A: the previous value is kept in a local and compared by the loop test
-        prev = [src(s.targets[0]) for s in ast.walk(w) if isinstance(s, ast.Assign) and src(s.value) == x and isinstance(s.targets[0], ast.Name)]
-        ok = bool(prev) and n.canon(w.test) in (n.canon(parse_expr(f"{prev[0]} != {x}")), n.canon(parse_expr(f"{x} != {prev[0]}"))) \
-            and all(isinstance(r.value, ast.Name) and r.value.id == x for r in rets) and not any(id(r) in in_loop for r in rets)
-    else:
-        # form B: the new value is compared with the current one inside the loop; equal -> leave with it, otherwise it becomes the current one
-        eq_forms = {n.canon(parse_expr(f"{y} == {x}")), n.canon(parse_expr(f"{x} == {y}")), n.canon(parse_expr(f"not {y} != {x}")), n.canon(parse_expr(f"not {x} != {y}"))}
-        tests = [t for t in ast.walk(w) if isinstance(t, ast.If) and n.canon(t.test) in eq_forms]
-        carry = [s for s in ast.walk(w) if isinstance(s, ast.Assign) and src(s.targets[0]) == x and src(s.value) == y]
-        leaves = bool(tests) and all(isinstance(t.body[-1], (ast.Return, ast.Break)) for t in tests)
-        ret_ok = all(isinstance(r.value, ast.Name) and r.value.id in (x, y) for r in rets)
-        endless = isinstance(w.test, ast.Constant) and w.test.value is True
-        ok = len(tests) == 1 and leaves and len(carry) == 1 and ret_ok and endless
-        why = f"loop `while {src(w.test)}` with exit test(s) {[src(t.test) for t in tests]}"
-    ctx.check(ok, "R4.phi", "RSequenceSampler.compute_phi:fixed-point", "iterated until phi no longer changes (exact equality of two successive values)", why, f, w)
+    all_loop_nodes = {id(x) for w in loops for x in ast.walk(w)}
+    multi = len(loops) > 1
+    good_vars: set[str] = set()
+    for k, w in enumerate(loops):
+        tag = "" if not multi else f"#{k}"
+        in_loop = {id(x) for x in ast.walk(w)}
+        # the iterated variable: a name updated in the loop by F(name)
+        cands = []
+        for s_ in ast.walk(w):
+            if isinstance(s_, ast.Assign) and isinstance(s_.targets[0], ast.Name):
+                for xname in {y.id for y in ast.walk(s_.value) if isinstance(y, ast.Name)} - {d}:
+                    if n.rat(s_.value).equals(n.rat(parse_expr(f"(1 + {xname}) ** (1.0 / ({d} + 1))"))):
+                        cands.append((xname, s_))
+        if not cands:
+            inits0 = [s_ for s_ in walk_scope(f.node) if isinstance(s_, (ast.Assign, ast.AnnAssign)) and id(s_) not in all_loop_nodes and isinstance(s_.value, ast.Constant) and s_.value.value == 2.0]
+            if not inits0:
+                ctx.fail("R4.phi", f"RSequenceSampler.compute_phi:start{tag}", "phi does not start from 2.0", f, w)
+                continue
+            xg = src(inits0[0].targets[0] if isinstance(inits0[0], ast.Assign) else inits0[0].target)
+            others = [s_ for s_ in ast.walk(w) if isinstance(s_, (ast.Assign, ast.AugAssign)) and src(s_.targets[0] if isinstance(s_, ast.Assign) else s_.target) == xg]
+            ctx.fail("R4.phi", f"RSequenceSampler.compute_phi:update{tag}", f"phi update is `{src(others[0]) if others else '?'}`" if others else "no update phi <- (1 + phi)^(1/(d+1)) in the loop", f, (others or [w])[0])
+            continue
+        x, upd0 = cands[0]
+        upd = [u for xn, u in cands if xn == x]
+        inits = [s_ for s_ in walk_scope(f.node) if isinstance(s_, (ast.Assign, ast.AnnAssign)) and id(s_) not in all_loop_nodes
+                 and src(s_.targets[0] if isinstance(s_, ast.Assign) else s_.target) == x]
+        start_ok = bool(inits) and all(isinstance(s_.value, ast.Constant) and s_.value.value == 2.0 and type(s_.value.value) is float for s_ in inits)
+        ctx.check(start_ok, "R4.phi", f"RSequenceSampler.compute_phi:start{tag}", "the fixed-point iteration starts from 2.0", "phi does not start from 2.0", f, inits[0] if inits else w)
+        others = [s_ for s_ in ast.walk(w) if isinstance(s_, (ast.Assign, ast.AugAssign)) and src(s_.targets[0] if isinstance(s_, ast.Assign) else s_.target) == x and s_ not in upd
+                  and not (isinstance(s_, ast.Assign) and isinstance(s_.value, ast.Name) and any(s_.value.id == src(u.targets[0]) for u in upd))]
+        ctx.check(len(upd) == 1 and not others, "R4.phi", f"RSequenceSampler.compute_phi:update{tag}", "phi <- (1 + phi)^(1/(d+1))",
+                  f"phi update is `{src(upd[0].value) if upd else (src(others[0]) if others else '?')}`", f, (others or upd or [w])[0])
+        if len(upd) != 1:
+            continue
+        y = src(upd[0].targets[0])
+        ok = False
+        why = f"loop condition is `{src(w.test)}`"
+        if y == x:
+            prev = [src(s_.targets[0]) for s_ in ast.walk(w) if isinstance(s_, ast.Assign) and src(s_.value) == x and isinstance(s_.targets[0], ast.Name)]
+            ok = bool(prev) and n.canon(w.test) in (n.canon(parse_expr(f"{prev[0]} != {x}")), n.canon(parse_expr(f"{x} != {prev[0]}"))) and not any(id(r) in in_loop for r in rets)
+            if ok:
+                good_vars.add(x)
+        else:
+            eq_forms = {n.canon(parse_expr(f"{y} == {x}")), n.canon(parse_expr(f"{x} == {y}")), n.canon(parse_expr(f"not {y} != {x}")), n.canon(parse_expr(f"not {x} != {y}"))}
+            tests = [t for t in ast.walk(w) if isinstance(t, ast.If) and n.canon(t.test) in eq_forms]
+            carry = [s_ for s_ in ast.walk(w) if isinstance(s_, ast.Assign) and src(s_.targets[0]) == x and src(s_.value) == y]
+            leaves = bool(tests) and all(isinstance(t.body[-1], (ast.Return, ast.Break)) for t in tests)
+            endless = isinstance(w.test, ast.Constant) and w.test.value is True
+            ok = len(tests) == 1 and leaves and len(carry) == 1 and endless
+            why = f"loop `while {src(w.test)}` with exit test(s) {[src(t.test) for t in tests]}"
+            if ok:
+                good_vars |= {x, y}
+        ctx.check(ok, "R4.phi", f"RSequenceSampler.compute_phi:fixed-point{tag}", "iterated until phi no longer changes (exact equality of two successive values)", why, f, w)
+    # what is handed out: the variable of a checked loop, or the entry of a value memo that was stored from one under the key d
+    memo_ok: set[str] = set()
+    for s_ in walk_scope(f.node):
+        if isinstance(s_, ast.Assign) and len(s_.targets) == 1 and isinstance(s_.targets[0], ast.Subscript) and isinstance(s_.targets[0].value, ast.Name) \
+                and src(s_.targets[0].slice) == d and isinstance(s_.value, ast.Name) and s_.value.id in good_vars:
+            memo_ok.add(s_.targets[0].value.id)
+    for nm in list(memo_ok):
+        if any(isinstance(s_, ast.Assign) and any(isinstance(t, ast.Subscript) and isinstance(t.value, ast.Name) and t.value.id == nm for t in s_.targets)
+               and not (src(s_.targets[0].slice) == d and isinstance(s_.value, ast.Name) and s_.value.id in good_vars) for s_ in walk_scope(f.node)):
+            memo_ok.discard(nm)
+    for r in rets:
+        v = r.value
+        ok = (isinstance(v, ast.Name) and v.id in good_vars) or (isinstance(v, ast.Subscript) and isinstance(v.value, ast.Name) and v.value.id in memo_ok and src(v.slice) == d)
+        if not ok and not good_vars:
+            continue    # the loop findings above already say what is wrong
+        ctx.check(ok, "R4.phi", f"RSequenceSampler.compute_phi:return:{src(v)[:30]}", "compute_phi returns the fixed point it iterated to",
+                  f"compute_phi returns `{src(v)[:60]}`, which is not the variable of the fixed-point iteration", f, r)
 
 
 def plumbing(ctx: Context) -> None:
